@@ -167,6 +167,10 @@ fn small_oracle(docs: &[&Node], bytes: &[Vec<u8>]) -> Result<bool, String> {
     Ok(interesting(docs, &schema))
 }
 
+fn big_oracle(docs: &[&Node], bytes: &[Vec<u8>]) -> Result<bool, String> {
+    small_oracle(docs, bytes)
+}
+
 impl Property for C09 {
     fn id(&self) -> &'static str {
         "C09"
@@ -228,6 +232,17 @@ impl Property for C09 {
                 return Err((Failure::new(format!("small-scope exhaustive search: {}", e)).with_detail(json!({"documents": docs})), json!({"small_scope_documents": docs})));
             }
         }
+        // families beyond the small scope (sizes around plausible limits: windows, inline capacities, two-digit suffixes)
+        {
+            let (n, fail) = super::smallscope::run_big_families(big_oracle);
+            st.evaluations += n;
+            st.nontrivial_enumerated += n;
+            st.add("big_families", n);
+            if let Some((label, e, docs)) = fail {
+                let first = e.lines().next().unwrap_or("").to_string();
+                return Err((Failure::new(format!("family `{}`: {}", label, first)).with_detail(json!({"documents": docs, "message": e})), json!({"big_family": label})));
+            }
+        }
         // sort keys: every ordered triple of names whose order depends on how prefixes, digits, separators, case and
         // non-ASCII letters are compared, as children (with an attribute each, so they get structs) and as attributes
         {
@@ -265,6 +280,9 @@ impl Property for C09 {
         Ok(())
     }
     fn replay_custom(&self, payload: &Value) -> Result<(), Failure> {
+        if let Some(l) = payload["big_family"].as_str() {
+            return super::smallscope::replay_big_family(l, big_oracle).map_err(Failure::new);
+        }
         // canonical documents; C03's replay rebuilds the DOM only for the a/b alphabet, so re-check orders on the parsed tree directly
         let docs: Vec<Vec<u8>> = payload["small_scope_documents"].as_array().map(|a| a.iter().map(|d| d.as_str().unwrap_or("").as_bytes().to_vec()).collect()).unwrap_or_default();
         let root = crate::sut::parse_seq(&docs).map_err(|(i, e)| Failure::new(format!("document #{} rejected: {}", i + 1, e)))?;
